@@ -122,7 +122,7 @@ def flows(tier, seed):
         return []
     query._execute_statement = fake
     query.check_applied = lambda r: None
-    fails, n = [], 0
+    fails, n, seen = [], 0, set()
     domains = dict(name=[None, 'n1', 'n2'], shared=[None, 's1'], tags=[None, set(), {'a'}, {'a', 'b'}, {'b', 'c'}], elems=[None, [], [1], [1, 2], [2, 1, 3], [0, 1]],
                    props=[None, {}, {'x': 1}, {'x': 2}, {'x': 1, 'y': 2}, {'y': 2}])
     fields = sorted(domains)
@@ -156,6 +156,7 @@ def flows(tier, seed):
                         query.DMLQuery(Row, inst).update()
                     inst._set_persisted()
                 n += 1
+                seen.add(' ; '.join(history))
                 if stored() != state_of(inst):
                     fails.append('after %s the stored row is %r but the instance holds %r' % (' ; '.join(history), stored(), state_of(inst)))
             except AssertionError as e:
@@ -165,7 +166,7 @@ def flows(tier, seed):
                 break
     finally:
         query._execute_statement = orig
-    return {'name': 'model-operation-sequences', 'kind': 'bounded', 'cases': n, 'evaluations': n, 'distinct_nontrivial': n,
-            'rule': 'stored row (in-memory table with cell-level CQL semantics fed by the recorded statement objects) == instance state after every sequence',
+    return {'name': 'model-operation-sequences', 'kind': 'bounded', 'cases': n, 'evaluations': n, 'distinct_nontrivial': len(seen), 'samples': sorted(seen)[:2],
+            'rule': 'distinct = distinct operation histories (every one changes at least one column); stored row (in-memory table with cell-level CQL semantics fed by the recorded statement objects) == instance state after every sequence',
             'bound': '%d random sequences of create + <= %d save/update steps over small value domains on one model (partition + clustering key, text, static text, set, list, map)' % (n, steps),
             'violations': fails[:3]}
